@@ -4,4 +4,4 @@ From Coq Require Import List String ZArith.
 From Coq Require Import ExtrOcamlBasic ExtrOcamlString.
 From Mimium Require Import Tables.Combinators Staging.Model.
 Extraction "staging_model.ml" translate translate_code ev rebuild expand norm0 norm1 convert_macroexpand
-  rn0 rn1 swap_name names0 names1 registered emitted site_ok unregistered_sites is_extern prim desugar_name scope0 imm_round.
+  rn0 rn1 swap_name names0 names1 registered emitted site_ok unregistered_sites is_extern prim desugar_name scope0.
